@@ -1,9 +1,61 @@
 import Drivers.Proto
-/-! Model driver for property C11 (stub: no model operations registered yet). -/
-open Lean Proto
+import St4sd.Model.Validate
+import St4sd.Gen.C11
+/-! Model driver for property C11.
+
+Request `{"op":"validate","doc":{"comps":[{"stage":n,"name":s,"refs":[[stage,name]…],"argRefs":[…],
+"opts":<json>,"vars":[[name,[used…]]…],"uses":[…]}…],"globals":[[name,[used…]]…]}}`
+→ `{"accepted":bool,"errors":[kinds…]}`; `{"op":"schema-paths"}` → the option paths of the generated schema. -/
+open Lean Proto St4sd.ValSchema St4sd.Validate
+
+partial def toVal : Json → Val
+  | .null => .null
+  | .bool b => .bool b
+  | .num n => if n.exponent == 0 then .int n.mantissa else .float
+  | .str s => .str s.toList
+  | .arr a => .list (a.toList.map toVal)
+  | .obj kvs => .dict (kvs.toList.map (fun (k, v) => (k.toList, toVal v)))
+
+def getId (j : Json) : Except String Id := do
+  let a ← j.getArr?
+  match a.toList with
+  | [s, n] => return ((← s.getNat?), (← n.getStr?).toList)
+  | _ => throw "identifier must be [stage, name]"
+
+def getDefs (j : Json) (k : String) : Except String (List (S × List S)) := do
+  (← getArr j k).mapM (fun e => do
+    let a ← e.getArr?
+    match a.toList with
+    | [n, us] => return ((← n.getStr?).toList, (← (← us.getArr?).toList.mapM (·.getStr?)).map String.toList)
+    | _ => throw "definition must be [name, [used]]")
+
+def getComp (j : Json) : Except String Comp := do
+  return { stage := ← getNat j "stage", name := ← getChars j "name",
+           refs := ← (← getArr j "refs").mapM getId, argRefs := ← (← getArr j "argRefs").mapM getId,
+           opts := toVal (← j.getObjVal? "opts"), vars := ← getDefs j "vars", uses := ← getCharsList j "uses" }
+
+def errKind : Err → String
+  | .duplicate _ => "duplicate"
+  | .option _ (.keyUnknown _) => "key-unknown"
+  | .option _ (.keyMissing _) => "key-missing"
+  | .option _ .valueInvalid => "value-invalid"
+  | .option _ .convertFailed => "convert-failed"
+  | .unknownReference _ _ => "unknown-reference"
+  | .undeclaredReferenceInArguments _ _ => "undeclared-reference-in-arguments"
+  | .undefinedVariable _ _ => "undefined-variable"
+  | .cycle => "cycle"
 
 def handle (j : Json) : Except String Json := do
   let op ← getStr j "op"
-  throw s!"unknown op {op}"
+  match op with
+  | "validate" =>
+    let dj ← j.getObjVal? "doc"
+    let d : Doc := { comps := ← (← getArr dj "comps").mapM getComp, globals := ← getDefs dj "globals" }
+    let errs := validate St4sd.Gen.C11.convTable St4sd.Gen.C11.componentSchema d
+    let kinds := (errs.map errKind).eraseDups
+    return jobj [("accepted", jbool errs.isEmpty), ("errors", jarr (kinds.map jstr))]
+  | "schema-paths" =>
+    return jobj [("paths", jarr (St4sd.Gen.C11.optionPaths.map (fun p => jarr (p.map jchars))))]
+  | _ => throw s!"unknown op {op}"
 
 def main : IO Unit := serve handle
